@@ -16,14 +16,14 @@ def extract(ctx):
     log = {}
     wr = Source(os.path.join(ctx.repo, WR))
     rd = Source(os.path.join(ctx.repo, RD))
-    out3, _ = wr.block(r'void\s+outputSymbol\s*\(\s*std::ostream&\s*destination\s*,\s*const\s+std::string&\s*value\s*,\s*bool\s+fieldValue\s*\)\s*\{', semi=False)
-    ne, _ = rd.block(r'std::string\s+nextElement\s*\(\s*std::string&\s*line\s*,\s*std::size_t&\s*start\s*,\s*bool&\s*wasCRLF\s*\)\s*\{', semi=False)
+    out3, _ = wr.block(r'void\s+outputSymbol\s*\(\s*std::ostream&\s*\w+\s*,\s*const\s+std::string&\s*\w+\s*,\s*bool\s+\w+\s*\)\s*\{', semi=False)
+    ne, _ = rd.block(r'std::string\s+nextElement\s*\(\s*std::string&\s*\w+\s*,\s*std::size_t&\s*\w+\s*,\s*bool&\s*\w+\s*\)\s*\{', semi=False)
     ctx.fact('WriteStreamCSV.h: a symbol COLUMN is written by outputSymbol(destination, symbolTable.decode(value), true)',
              wr.has_raw(r"case\s+'s':\s*outputSymbol\(destination,\s*symbolTable\.decode\(value\),\s*true\);"))
     ctx.fact("ReadStreamCSV.h: a symbol column stores the element returned by nextElement unchanged (symbolTable.encode(element))",
              rd.has_raw(r"case\s+'s':\s*\{\s*tuple\[inputMap\[column\]\]\s*=\s*symbolTable\.encode\(element\);"))
     rs = Source(os.path.join(ctx.repo, 'src/include/souffle/io/ReadStream.h'))
-    rq, _ = rs.block(r'std::string\s+readQuotedSymbol\s*\(\s*const\s+std::string&\s*source\s*,\s*std::size_t\s+pos\s*,\s*std::size_t\*\s*charactersRead\s*\)\s*\{', semi=False)
+    rq, _ = rs.block(r'std::string\s+readQuotedSymbol\s*\(\s*const\s+std::string&\s*\w+\s*,\s*std::size_t\s+\w+\s*,\s*std::size_t\*\s*\w+\s*\)\s*\{', semi=False)
     rq2 = strip_comments(rq)
     rq2, n13q = re.subn(r'\bthrow\s+[^;]*;', '{ vx_throw(); return std::string(); }', rq2)
     ctx.fact('ReadStream.h: a symbol nested in a record/ADT is read by readSymbol -> readQuotedSymbol when it starts with a double quote',
